@@ -12,7 +12,8 @@ RULE = ("Cases: 1-6 three-component windows of equal length (16-800 samples), a 
         "length (default / explicit / record length incl. odd lengths), smoothing off or any operator; for PSD preprocessing a "
         "flat or pole-zero instrument response (or none) with differentiation on/off, plus an on-bin Hann-tapered sinusoid for "
         "the analytic derivative. Non-trivial = no component is constant and >= 2 windows (Welch) or a response/derivative "
-        "branch is exercised; distinct by SHA-1 of the case.")
+        "branch is exercised; distinct by SHA-1 of the case."
+        ' Scale pass: 1-3 windows of 2^14-150 000 samples with FFT length None/2^15/2^16/2^17/record length.')
 ASSUMPTIONS = [
     "numpy.fft and scipy.signal.windows.tukey are trusted; the oracle states Parseval's identity, the Welch average, the kernel average and the transfer-function division explicitly",
     "the same window objects are handed to successive process() calls on purpose (process must not modify them)",
